@@ -101,6 +101,26 @@ pub open spec fn ch_msg_post(i: Seq<u8>, r: IResult<&[u8], TlsMessageHandshake>)
         Err(Err::Failure(e)) => ch_post(i, Err::<(&[u8], TlsClientHelloContents), Err<Error<&[u8]>>>(Err::Failure(e))),
     }
 }
+// DTLS ClientHello, RFC 6347 4.2.1: as ClientHello with cookie<0..2^8-1> between session id and cipher suites
+pub open spec fn dch_post(i: Seq<u8>, r: IResult<&[u8], DTLSMessageHandshakeBody>) -> bool {
+    if i.len() < 35 { is_incomplete(r) }
+    else if i[34] > 32 { is_error_kind(r, ErrorKind::Verify) }
+    else if i.len() < 35 + i[34] as int + 1 { is_incomplete(r) }
+    else { let ok = 36 + i[34] as int; let kl = i[ok - 1] as int;
+        if i.len() < ok + kl + 2 { is_incomplete(r) }
+        else { let oc = ok + kl + 2; let cl = be16s(i, oc - 2);
+            if cl % 2 == 1 || cl > i.len() - oc { is_error(r) }
+            else if i.len() < oc + cl + 1 { is_incomplete(r) }
+            else { let om = oc + cl + 1; let ml = i[om - 1] as int;
+                if ml > i.len() - om { is_error(r) }
+                else { match r {
+                    Ok((rem, DTLSMessageHandshakeBody::ClientHello(h))) => h.version.0 as int == be16s(i, 0) && h.random@ =~= i.subrange(2, 34) && sid_ok(i, h.session_id)
+                        && h.cookie@ =~= i.subrange(ok, ok + kl)
+                        && h.ciphers@.len() == cl / 2 && (forall|k: int| 0 <= k < cl / 2 ==> (#[trigger] h.ciphers@[k]).0 as int == be16s(i, oc + 2 * k))
+                        && h.comp@.len() == ml && (forall|k: int| 0 <= k < ml ==> (#[trigger] h.comp@[k]).0 == i[om + k])
+                        && opt_ext_ok(i, om + ml, h.ext, rem@),
+                    _ => false } } } } }
+}
 // a body that is one opaque blob of the declared length (ServerKeyExchange, ServerDone, CertificateVerify, Finished,
 // ClientKeyExchange): exactly `len` bytes, the rest is remainder, a short body is Incomplete
 pub open spec fn blob_post(i: Seq<u8>, len: int, r: IResult<&[u8], TlsMessageHandshake>, get: spec_fn(TlsMessageHandshake) -> Option<Seq<u8>>) -> bool {
@@ -175,7 +195,7 @@ UNIT = {
         }},
         {"file": F_HS, "kind": "fn", "name": "parse_cipher_suites", "external_body": True, "contract": "    ensures cs_post(i@, len as int, r),"},
         {"file": F_HS, "kind": "fn", "name": "parse_compressions_algs", "external_body": True, "contract": "    ensures comp_post(i@, len as int, r),"},
-        {"file": F_HS, "kind": "fn", "name": "parse_tls_handshake_client_hello", "rlimit": 150,
+        {"file": F_HS, "kind": "fn", "name": "parse_tls_handshake_client_hello", "rlimit": 400,
          "subst": SID_SUBST,
          "splices": [
              {"at_start": True, "text": "    let ghost i0 = i@;\n    proof { reveal_with_fuel(be_val, 3); axiom_be_fun(); }"},
@@ -195,6 +215,21 @@ UNIT = {
              (r"TlsMessageHandshake::ClientHello,", "|x: TlsClientHelloContents<'a>| -> (y: TlsMessageHandshake<'a>) ensures y == TlsMessageHandshake::ClientHello(x) { TlsMessageHandshake::ClientHello(x) },"),
          ],
          "contract": "    ensures ch_msg_post(i@, r),"},
+        {"file": "src/dtls.rs", "kind": "fn", "name": "parse_dtls_client_hello", "rlimit": 400,
+         "subst": SID_SUBST + [(r"^fn parse_dtls_client_hello", "pub fn parse_dtls_client_hello")],
+         "splices": [
+             {"at_start": True, "text": "    let ghost i0 = i@;\n    proof { reveal_with_fuel(be_val, 3); axiom_be_fun(); }"},
+             {"after": r"let \(i, version\) = [^;]*;", "text": "    proof { assert(version.0 as int == be16s(i0, 0)); assert(i@ =~= i0.subrange(2, i0.len() as int)); }"},
+             {"after": r"let \(i, random\) = [^;]*;", "text": "    proof { assert(random@ =~= i0.subrange(2, 34)); assert(i@ =~= i0.subrange(34, i0.len() as int)); }"},
+             {"after": r"let \(i, sidlen\) = [^;]*;", "text": "    proof { assert(sidlen == i0[34] && sidlen <= 32); assert(i@ =~= i0.subrange(35, i0.len() as int)); }"},
+             {"after": r"let \(i, session_id\) = [^;]*;", "text": "    let ghost ok: int = 36 + sidlen as int;\n    proof { assert(sid_ok(i0, session_id)); assert(i@ =~= i0.subrange(ok - 1, i0.len() as int)); }"},
+             {"after": r"let \(i, cookie\) = [^;]*;", "text": "    let ghost kl: int = i0[ok - 1] as int;\n    let ghost oc: int = ok + kl + 2;\n    proof { assert(cookie@ =~= i0.subrange(ok, ok + kl)); assert(i@ =~= i0.subrange(oc - 2, i0.len() as int)); }"},
+             {"after": r"let \(i, ciphers_len\) = [^;]*;", "text": "    let ghost cl: int = ciphers_len as int;\n    let ghost ic = i@;\n    proof { assert(cl == be16s(i0, oc - 2)); assert(ic =~= i0.subrange(oc, i0.len() as int)); }"},
+             {"after": r"let \(i, ciphers\) = [^;]*;", "text": "    proof { assert(i@ =~= i0.subrange(oc + cl, i0.len() as int)); assert forall|k: int| 0 <= k < cl / 2 implies (#[trigger] ciphers@[k]).0 as int == be16s(i0, oc + 2 * k) by { assert(be16s(ic, 2 * k) == be16s(i0, oc + 2 * k)); } }"},
+             {"after": r"let \(i, comp_len\) = [^;]*;", "text": "    let ghost om: int = oc + cl + 1;\n    let ghost ml: int = comp_len as int;\n    let ghost im = i@;\n    proof { assert(ml == i0[om - 1]); assert(im =~= i0.subrange(om, i0.len() as int)); }"},
+             {"after": r"let \(i, comp\) = [^;]*;", "text": "    proof { assert(i@ =~= i0.subrange(om + ml, i0.len() as int)); assert forall|k: int| 0 <= k < ml implies (#[trigger] comp@[k]).0 == i0[om + k] by { assert(im[k] == i0[om + k]); } }"},
+         ],
+         "contract": "    ensures dch_post(i@, r),"},
         blob("parse_tls_handshake_msg_serverkeyexchange", "ServerKeyExchange", closure=r"\|ext\| \{"),
         blob("parse_tls_handshake_msg_serverdone", "ServerDone"),
         blob("parse_tls_handshake_msg_certificateverify", "CertificateVerify"),
